@@ -134,7 +134,7 @@ func init() {
 			"start ≤ end, and a negative index i is mapped to n+i, a non-negative one to itself (R-IDXPOST).",
 		NotDecided:  "That every index in [-n, n-1] is accepted (completeness of the bounds test), that Slice copies the elements between the proved bounds in order, error texts.",
 		Assumptions: []string{},
-		Rules:       []*Rule{runesRule("pkg/evaluator", "stringVal", 4), f2iRule("pkg/evaluator", 4), ruleEvalMisc, containerIdxRule("pkg/evaluator", 3), idxPostRule("pkg/evaluator")},
+		Rules:       []*Rule{runesRule("pkg/evaluator", "stringVal", 4), f2iRule("pkg/evaluator", 4), ruleEvalMisc, containerIdxRule("pkg/evaluator", 3), idxPostRule("pkg/evaluator"), ruleAssignTarget},
 	})
 }
 
@@ -283,10 +283,10 @@ func init() {
 			"interface go through the matching transform and x/y siblings are computed symmetrically; style methods flush pending shapes before " +
 			"the pen changes and set their attributes unconditionally; each drawing method queues exactly one element on every path; Push consults " +
 			"an element's own attributes; grid steps are validated; no style value is dead-stored; bytes reach the writer only through the XML " +
-			"encoder and no string field is raw inner XML; the graphics built-ins agree with their declarations (R-BUILTINSIG); `evy run` has no deferred work pending when it exits, so the SVG file is complete also for a program that ends with an error or with exit (R-EXITDEFER).",
+			"encoder and no string field is raw inner XML; the graphics built-ins agree with their declarations (R-BUILTINSIG); `evy run` has no deferred work pending when it exits, so the SVG file is complete also for a program that ends with an error or with exit (R-EXITDEFER), and the file is created empty, never written over its old content (R-OUTFILE).",
 		NotDecided:  "The grouping outcome for arbitrary style histories beyond these clauses, numeric formatting, the sign flip of the y extent in Rect.",
 		Assumptions: []string{},
-		Rules:       []*Rule{ruleSVG, ruleBuiltinSig, ruleExitDefer},
+		Rules:       []*Rule{ruleSVG, ruleBuiltinSig, ruleExitDefer, ruleOutFile},
 	})
 }
 
